@@ -1,5 +1,6 @@
 import Passage.Driver.Common
 import Passage.Json.Str
+import Passage.Codec.Utf8
 namespace Passage.Driver.C10Json
 open Passage Passage.Driver Passage.Json
 
@@ -11,10 +12,9 @@ def isInfix (p : Bytes) : Bytes → Bool
   | b :: r => p.isPrefixOf (b :: r) || isInfix p r
 
 def scanStr : Scan → String
-  | .ok s [] => "ok:" ++ Hex.encode s
+  | .ok s [] => if Codec.validUtf8 s then "ok:" ++ Hex.encode s else "bad"   -- `String` contents must be UTF-8
   | .ok _ _ => "bad"          -- the token ended before the text did: trailing characters
   | .bad => "bad"
-  | .unsupported => "unsupported"
 
 /-- `c10.jstr s=<text>`: the token the writer emits and what the reader makes of it;
     `c10.jscan b=<body>`: the reader on `"` body `"`;
